@@ -81,6 +81,10 @@ structure Coord (α : Type) where
   rows : List (List α)
   deriving Repr
 
+/-- `points.coordinates` in the form `from_coordinates` takes it back: one tensor per variable -/
+def Points.coords (p : Points α) : List (Coord α) :=
+  p.space.vars.map fun v => ⟨v.1, p.shape, v.2, p.data.map (piece p.space.vars v.1)⟩
+
 /-- row-wise concatenation: `torch.cat(…, dim=-1)` on equal batch shapes -/
 def hcat : List (List (List α)) → Nat → List (List α)
   | [], n => List.replicate n []
